@@ -6,6 +6,7 @@ mod dump;
 mod irjson;
 mod kernels;
 mod loctree;
+mod queries;
 
 fn main() {
   // panics inside kernels are caught; silence the default hook's backtrace spam
@@ -24,6 +25,7 @@ fn main() {
     "exprloc" => dump::exprloc_cmd(&args[2..]),
     "survive" => dump::survive_cmd(&args[2..]),
     "loctree" => loctree::loctree_cmd(&args[2..]),
+    "queries" => queries::queries_cmd(&args[2..]),
     _ => {
       eprintln!("unknown subcommand");
       std::process::exit(64);
